@@ -1,42 +1,264 @@
+//! C06 / C34 / C07: BOUNDED Kani stand-ins for what unit `journal` (Verus) ASSUMES about journaled_state.rs:
+//!   * the driver of `JournaledState::checkpoint_revert` (contract `revert_post` in contracts/journal.vc):
+//!     `iter_mut().rev().take(n).for_each(closure capturing &mut ..)`, `logs.truncate`, `journal.truncate`, `depth -= 1`;
+//!   * `JournaledState::initial_account_load` (generic `impl IntoIterator` loop);
+//!   * the early returns of `create_account_checkpoint` through `checkpoint_revert` (depth / journal pairing, C07).
+//!
+//! Cost notes (measured, see mutations/C06/README.md):
+//!   * std's `RandomState::new()` takes its SipHash keys from the OS (a foreign call Kani cannot model): every harness
+//!     stubs it with FIXED keys (0, 0).  With symbolic keys even `checkpoint(); inc_nonce(a); checkpoint_revert(cp)` on a
+//!     one-account state does not finish in 15 minutes.
+//!   * symbolic execution cannot resolve hashbrown's probe loops nor the discriminant of a journal entry read back from
+//!     the heap, so the REAL `journal_revert` costs ~12 table lookups per entry plus the drop glue of `Option<Bytecode>`
+//!     (`CodeChange` arm).  The driver harnesses therefore replace the PRIVATE `journal_revert` -- which unit `journal`
+//!     PROVES against `undo_all`, every arm -- by a recorder (`kani::stub`) and check the driver's CALL PROTOCOL:
+//!     exactly what `revert_post` assumes beyond the proved `journal_revert` contract (lemma_undo_levels: undoing the
+//!     levels journal[journal_i..] last level first IS undo_all of their concatenation).
+#![allow(static_mut_refs)]
 use crate::journaled_state::{JournalCheckpoint, JournalEntry, JournaledState};
-use crate::primitives::{Account, AccountInfo, Address, HashSet, SpecId, U256, KECCAK_EMPTY};
+use crate::interpreter::InstructionResult;
+use crate::primitives::{
+    db::Database, hash_map::Entry, Account, AccountInfo, AccountStatus, Address, Bytecode, Bytes, EvmState, EvmStorageSlot, HashMap,
+    HashSet, Log, LogData, SpecId, TransientStorage, B256, KECCAK_EMPTY, U256,
+};
+use std::collections::hash_map::RandomState;
 
-const A: Address = Address::new([0xA1; 20]);
-
-fn any_u256() -> U256 { U256::from_limbs(kani::any()) }
-fn limbs_eq(a: &U256, b: &U256) -> bool { a.as_limbs() == b.as_limbs() }
-
-fn any_account() -> Account {
-    let info = AccountInfo { balance: any_u256(), nonce: kani::any(), code_hash: KECCAK_EMPTY, code: None };
-    Account::from(info)
+// ------------------------------------------------------------------------------------------------ stubs
+/// RandomState is two u64 (k0, k1): fixed keys instead of the OS random source.
+fn fixed_random_state() -> RandomState {
+    unsafe { core::mem::transmute::<[u64; 2], RandomState>([0u64, 0u64]) }
 }
 
-/// std's RandomState::new() draws its SipHash keys from the OS (a foreign call Kani cannot model; the keys would be
-/// symbolic and every bucket index with them).  Stub: fixed keys (0, 0).  RandomState is two u64 (k0, k1).
-fn fixed_random_state() -> std::collections::hash_map::RandomState {
-    unsafe { core::mem::transmute::<[u64; 2], std::collections::hash_map::RandomState>([0u64, 0u64]) }
+/// Recorder standing in for the private `JournaledState::journal_revert(state, transient, entries, is_spurious_dragon)`:
+/// it keeps the arguments of every call, in call order, and touches neither the state nor the transient storage.
+const MAX_CALLS: usize = 5;
+const NO_CALL: Option<(Vec<JournalEntry>, bool)> = None;
+static mut REC: [Option<(Vec<JournalEntry>, bool)>; MAX_CALLS] = [NO_CALL; MAX_CALLS];
+static mut REC_N: usize = 0;
+fn recording_journal_revert(_state: &mut EvmState, _transient: &mut TransientStorage, entries: Vec<JournalEntry>, sd: bool) {
+    unsafe {
+        assert!(REC_N < MAX_CALLS, "journal_revert called more often than there are levels");
+        REC[REC_N] = Some((entries, sd));
+        REC_N += 1;
+    }
 }
 
+// ------------------------------------------------------------------------------------------------ helpers
+fn any_u256() -> U256 {
+    U256::from_limbs(kani::any())
+}
+fn limbs_eq(a: &U256, b: &U256) -> bool {
+    let (a, b) = (a.as_limbs(), b.as_limbs());
+    a[0] == b[0] && a[1] == b[1] && a[2] == b[2] && a[3] == b[3]
+}
+fn addr(id: u8) -> Address {
+    Address::new([id; 20])
+}
+fn addr_id(a: &Address) -> u8 {
+    a.0[0]
+}
+
+/// EIP-161 (state clearing) is active from Spurious Dragon on: every fork except the five before it.  Written from the
+/// fork list, not from the numeric order `SpecId::enabled` uses.
+fn eip161_active(spec: SpecId) -> bool {
+    !matches!(spec, SpecId::FRONTIER | SpecId::FRONTIER_THAWING | SpecId::HOMESTEAD | SpecId::DAO_FORK | SpecId::TANGERINE)
+}
+
+/// a journal entry that carries the identity `id` (in its address) and a payload word; three different variants
+fn entry(id: u8, w: u64) -> JournalEntry {
+    match id % 3 {
+        0 => JournalEntry::NonceChange { address: addr(id) },
+        1 => JournalEntry::StorageChanged { address: addr(id), key: U256::from_limbs([7, 0, 0, 0]), had_value: U256::from_limbs([w, 0, 0, 1]) },
+        _ => JournalEntry::BalanceTransfer { from: addr(id), to: addr(id ^ 0x80), balance: U256::from_limbs([w, 0, 0, 0]) },
+    }
+}
+/// (identity, payload) of an entry built by `entry`
+fn entry_tag(e: &JournalEntry) -> (u8, u64) {
+    match e {
+        JournalEntry::NonceChange { address } => (addr_id(address), 0),
+        JournalEntry::StorageChanged { address, had_value, .. } => (addr_id(address), had_value.as_limbs()[0]),
+        JournalEntry::BalanceTransfer { from, balance, .. } => (addr_id(from), balance.as_limbs()[0]),
+        _ => (0xFF, 0),
+    }
+}
+fn same_entries(a: &[JournalEntry], b: &[JournalEntry]) -> bool {
+    if a.len() != b.len() {
+        return false;
+    }
+    let mut i = 0;
+    while i < a.len() {
+        let (x, y) = (entry_tag(&a[i]), entry_tag(&b[i]));
+        if x.0 != y.0 || x.1 != y.1 || (x.0 % 3 == 0) != matches!(a[i], JournalEntry::NonceChange { .. }) {
+            return false;
+        }
+        i += 1;
+    }
+    true
+}
+fn log_of(id: u8) -> Log {
+    Log { address: addr(id), data: LogData::new_unchecked(Vec::new(), Bytes::new()) }
+}
+
+/// push `n` fresh entries (n <= 2) on the last journal level, the way every operation journals (`journal.last_mut().push`)
+fn push_entries(js: &mut JournaledState, n: usize, next_id: &mut u8, w: u64) {
+    let mut i = 0;
+    while i < n {
+        js.journal.last_mut().unwrap().push(entry(*next_id, w));
+        *next_id += 1;
+        i += 1;
+    }
+}
+fn push_logs(js: &mut JournaledState, n: usize, next_id: &mut u8) {
+    let mut i = 0;
+    while i < n {
+        js.log(log_of(*next_id));
+        *next_id += 1;
+        i += 1;
+    }
+}
+fn count() -> usize {
+    let n: usize = kani::any();
+    kani::assume(n <= 2);
+    n
+}
+
+// ------------------------------------------------------------------------------------------------ (1) the driver
+/// `checkpoint_revert(cp)` -- CALL PROTOCOL and bookkeeping, for every fork and every shape within the bound:
+/// the journal holds 1 or 2 levels when `cp = checkpoint()` is taken (0..=2 entries each, 0..=2 logs), afterwards
+/// 0..=2 entries on cp's own level, then 0..=2 inner frames (each `checkpoint()`, 0..=2 entries, 0..=1 log, then
+/// `checkpoint_commit()` -- or left OPEN when `inner_open`), 0..=2 more entries after each inner frame on the level that
+/// is then last... (entries always go to `journal.last_mut()`, as in every operation).
+/// Checked against `revert_post` (contracts/journal.vc), with `journal_revert` replaced by the recorder:
+///  * journal_revert is called once per level of journal[journal_i..], LAST LEVEL FIRST, each time with exactly that
+///    level's entries (in order) and with the EIP-161 flag of `spec`;  nothing else touches state / transient storage;
+///  * journal == old journal[..journal_i] (levels below the checkpoint keep their entries);
+///  * logs == old logs[..log_i];   depth == old depth - 1;   spec and the pre-warmed set unchanged.
 #[kani::proof]
-#[kani::unwind(5)]
+#[kani::unwind(8)]
 #[kani::stub(std::collections::hash_map::RandomState::new, fixed_random_state)]
-fn probe_min() {
-    let mut js = JournaledState::new(SpecId::CANCUN, HashSet::default());
-    let acc = any_account();
-    let b0 = acc.info.balance;
-    let n0 = acc.info.nonce;
-    core::mem::forget(js.state.insert(A, acc));
-    let d0 = js.depth;
-    let j0 = js.journal.len();
+#[kani::stub(crate::journaled_state::JournaledState::journal_revert, recording_journal_revert)]
+fn driver_protocol() {
+    let spec_byte: u8 = kani::any();
+    let spec = match SpecId::try_from_u8(spec_byte) {
+        Some(s) => s,
+        None => {
+            kani::assume(false);
+            unreachable!()
+        }
+    };
+    let mut js = JournaledState::new(spec, HashSet::default());
+    let mut id: u8 = 1;
+    let w: u64 = kani::any();
+
+    // ---- before the checkpoint: level 0 (from `new`) and possibly an open outer frame
+    push_entries(&mut js, count(), &mut id, w);
+    push_logs(&mut js, count(), &mut id);
+    let outer: bool = kani::any();
+    if outer {
+        let _ = js.checkpoint();
+        push_entries(&mut js, count(), &mut id, w);
+    }
+
+    // ---- the checkpoint under test
+    let depth0 = js.depth;
+    let journal_i = js.journal.len();
+    let log_i = js.logs.len();
     let cp = js.checkpoint();
-    let r = js.inc_nonce(A);
-    kani::cover!(r.is_some());
+    push_entries(&mut js, count(), &mut id, w);
+    push_logs(&mut js, count(), &mut id);
+
+    // ---- inner frames (committed, or left open)
+    let inner = count();
+    let inner_open: bool = kani::any();
+    let mut k = 0;
+    while k < inner {
+        let _ = js.checkpoint();
+        push_entries(&mut js, count(), &mut id, w);
+        let lg: bool = kani::any();
+        if lg {
+            push_logs(&mut js, 1, &mut id);
+        }
+        if !inner_open {
+            js.checkpoint_commit();
+        }
+        k += 1;
+    }
+    if !inner_open {
+        assert!(js.depth == depth0 + 1);
+    }
+
+    // ---- snapshot (own copy of the tags of every level / log)
+    let levels_before = js.journal.len();
+    assert!(levels_before == journal_i + 1 + inner);
+    let mut tags: [[(u8, u64); 2]; 5] = [[(0, 0); 2]; 5];
+    let mut lens: [usize; 5] = [0; 5];
+    let mut l = 0;
+    while l < levels_before {
+        lens[l] = js.journal[l].len();
+        let mut e = 0;
+        while e < lens[l] {
+            tags[l][e] = entry_tag(&js.journal[l][e]);
+            e += 1;
+        }
+        l += 1;
+    }
+    let mut log_ids: [u8; 2] = [0; 2];
+    let mut i = 0;
+    while i < log_i {
+        log_ids[i] = addr_id(&js.logs[i].address);
+        i += 1;
+    }
+    let depth_pre = js.depth;
+    let warm_len = js.warm_preloaded_addresses.len();
+
     js.checkpoint_revert(cp);
-    assert!(js.depth == d0);
-    assert!(js.journal.len() == j0);
-    let a = js.state.get(&A).unwrap();
-    assert!(a.info.nonce == n0);
-    assert!(limbs_eq(&a.info.balance, &b0));
-    assert!(!a.is_touched());
+
+    // ---- revert_post
+    assert!(js.depth == depth_pre - 1);
+    if !inner_open {
+        assert!(js.depth == depth0);
+    }
+    assert!(js.spec == spec);
+    assert!(js.warm_preloaded_addresses.len() == warm_len);
+    assert!(js.state.is_empty() && js.transient_storage.is_empty());
+    // journal cut back to the checkpoint, lower levels intact
+    assert!(js.journal.len() == journal_i);
+    let mut l = 0;
+    while l < journal_i {
+        assert!(js.journal[l].len() == lens[l]);
+        let mut e = 0;
+        while e < lens[l] {
+            let t = entry_tag(&js.journal[l][e]);
+            assert!(t.0 == tags[l][e].0 && t.1 == tags[l][e].1);
+            e += 1;
+        }
+        l += 1;
+    }
+    // logs cut back
+    assert!(js.logs.len() == log_i);
+    let mut i = 0;
+    while i < log_i {
+        assert!(addr_id(&js.logs[i].address) == log_ids[i]);
+        i += 1;
+    }
+    // journal_revert: once per level above the checkpoint, last level first, that level's entries, the fork's EIP-161 flag
+    let calls = unsafe { REC_N };
+    assert!(calls == levels_before - journal_i);
+    let mut c = 0;
+    while c < calls {
+        let l = levels_before - 1 - c;
+        let (entries, sd) = unsafe { REC[c].as_ref().unwrap() };
+        assert!(*sd == eip161_active(spec));
+        assert!(entries.len() == lens[l]);
+        let mut e = 0;
+        while e < lens[l] {
+            let t = entry_tag(&entries[e]);
+            assert!(t.0 == tags[l][e].0 && t.1 == tags[l][e].1);
+            e += 1;
+        }
+        c += 1;
+    }
+    kani::cover!(inner == 2 && !inner_open && outer && lens[journal_i] == 2 && lens[journal_i + 2] == 1 && log_i == 2);
+    kani::cover!(inner == 0 && lens[journal_i] == 0 && !eip161_active(spec));
     core::mem::forget(js);
 }
